@@ -449,6 +449,7 @@ def main(argv=None):
             "worst_observed_over_tolerance": {k: float("%.3g" % v) for k, v in sorted(m["maxima"].items())},
             "known_finding_hits": {k: v["count"] for k, v in m["known_hits"].items()},
             "components": WORLD_COMPONENTS.get(args.world, COMPONENTS),
+            "invariants_checked": WORLD_INVARIANTS.get(args.world, []),
             "violating_sessions": len(m["violations"]),
             "workers": args.workers,
             "sigpy_tree_sha": tree_sha(args.root),
@@ -486,6 +487,11 @@ SIMTIME_UNIT = {}
 ASSUMPTIONS = {}
 
 WORLD_COMPONENTS = {}
+WORLD_INVARIANTS = {}
+try:
+    from .meta import INVARIANTS as WORLD_INVARIANTS  # noqa
+except Exception:  # pragma: no cover
+    pass
 try:
     from .meta import ASSUMPTIONS, RULES, SIMTIME_UNIT  # noqa
     from .meta import COMPONENTS as WORLD_COMPONENTS  # noqa
